@@ -43,3 +43,25 @@ impl AcWrap {
 
 #[contractimpl(contracttrait)]
 impl AccessControl for AcWrap {}
+
+/// A contract that administers itself (what `TimelockController` does when constructed without an
+/// admin): nobody outside can produce the admin's authorization, so every admin-only entry point —
+/// including offering the admin role — must be refused whoever signs.
+#[contract]
+pub struct SelfAdmin;
+
+#[contractimpl]
+impl SelfAdmin {
+    pub fn __constructor(e: &Env) {
+        set_admin(e, &e.current_contract_address());
+    }
+
+    #[only_admin]
+    pub fn admin_restricted_function(e: &Env) -> u32 {
+        let _ = e;
+        7
+    }
+}
+
+#[contractimpl(contracttrait)]
+impl AccessControl for SelfAdmin {}
